@@ -402,7 +402,11 @@ class HierDictDocument(DictDocument):
                 if subinst is None:
                     subinst = []
 
-                if not isinstance(v, (list, tuple)):
+                if v is None:
+                    # a null member is one null occurrence
+                    v = [None]
+
+                elif not isinstance(v, (list, tuple)):
                     raise ValidationError([k, v],
                                        "%r: Need a sequence of values for %r")
 
